@@ -194,6 +194,27 @@ def freedBy (s s' : St) : List Addr := s.live.filter fun b => !(s'.live.contains
 
 def empty : St := { live := [], blk := fun _ => ⟨0, []⟩, roots := [], err := false, log := [] }
 
+/-! ## `$runtime.HeapAlloc`: the zero loop (transcribed by hand from heap.wat.ws; checked on every real allocation by the
+instrumentation, oracle (c)).  `i32` wrap-around is not modelled (sizes are far below 2^32). -/
+
+/-- linear memory as a byte map -/
+abbrev Mem := Nat → Nat
+
+/-- `i64.const 0; i64.store` at address `a` -/
+def store64z (a : Nat) (m : Mem) : Mem := fun x => if a ≤ x ∧ x < a + 8 then 0 else m x
+
+/-- `nbytes := (nbytes + 7) / 8 * 8` -/
+def heapAllocSize (nbytes : Nat) : Nat := (nbytes + 7) / 8 * 8
+
+/-- `loop $zero` with `k` iterations left: `nbytes -= 8; store64 (ptr + nbytes) 0; br_if nbytes ≠ 0` -/
+def zeroLoop : Nat → Nat → Mem → Mem
+  | 0, _, m => m
+  | k + 1, ptr, m => zeroLoop k ptr (store64z (ptr + 8 * k) m)
+
+/-- memory after `HeapAlloc nbytes` obtained `ptr` from malloc (`nbytes = 0` returns 0 before the loop) -/
+def heapAllocZero (nbytes ptr : Nat) (m : Mem) : Mem :=
+  if nbytes = 0 then m else zeroLoop (heapAllocSize nbytes / 8) ptr m
+
 /-! ## example programs (used by the `example`s next to the theorems) -/
 
 def exOps : List Op := [.alloc 1, .alloc 2, .store 1 2, .retain 2, .alloc 3, .store 2 3, .drop 2]
